@@ -488,6 +488,49 @@ func c03FanoutAfterReconnect(driver string) vh.Unit {
 	}}
 }
 
+// a host whose own keep-alive is late (but inside the activity window, so the client is still
+// billed for it) is told about the cut-off like the punctual one
+func c03LateHost(driver string) vh.Unit {
+	name := "fanout-to-late-hosts/" + driver
+	return vh.Unit{Name: name, Run: func(u *vh.U) {
+		for _, late := range []time.Duration{0, 30 * time.Second, 59 * time.Second, 61 * time.Second, 90 * time.Second, 119 * time.Second} {
+			for _, which := range []int{0, 1} {
+				pw, ids := c03Setup(driver, "500", "credit", 505, 2)
+				C, hosts := ids[0], ids[2:]
+				hostIDs := []string{hosts[0].NodeID, hosts[1].NodeID}
+				pw.Update(C, hostIDs, 1)
+				// host `which` checked in `late` ago, the other one just now
+				pw.UpdateCtx(vh.CtxWith(pw.Host(hosts[which].Name).Service()), hosts[which], nil, 2)
+				vsched.Advance(late + 5)
+				pw.UpdateCtx(vh.CtxWith(pw.Host(hosts[1-which].Name).Service()), hosts[1-which], nil, 2)
+				_, err := pw.Update(C, hostIDs, 2)
+				u.R.Evaluations++
+				u.R.States++
+				u.R.Transitions++
+				u.R.Traces++
+				u.Observe(fmt.Sprint("late-host ", late, which))
+				desc := fmt.Sprintf("two hosts, host %d last checked in %s ago (activity window 2m); client billed below its minimum", which, late)
+				if _, low := vh.AsLowBalance(err); !low {
+					u.Violate("fanout/not-cut-off-below-minimum", fmt.Sprintf("%s: update returned %v", desc, err), nil)
+					continue
+				}
+				for _, h := range hosts {
+					n := 0
+					for _, c := range pw.Host(h.Name).Calls {
+						if c.Method == "vipnode_disconnect" && c.Arg == C.NodeID {
+							n++
+						}
+					}
+					if n != 1 {
+						u.Violate("keepalive/disconnect-fanout", fmt.Sprintf("%s: host %s received %d vipnode_disconnect(client), expected 1", desc, h.Name, n), nil)
+					}
+				}
+			}
+		}
+		u.Sample("two hosts, one of them 0-119 s behind with its own keep-alive; client cut off")
+	}}
+}
+
 // histories that walk a balance across the threshold in both directions.
 func c03Walk(driver string, depth int) vh.Unit {
 	name := fmt.Sprintf("walk/%s/d%d", driver, depth)
@@ -543,10 +586,31 @@ func c03Walk(driver string, depth int) vh.Unit {
 						peers, _ := w.pw.Store.NodePeers(store.NodeID(C.NodeID))
 						el := int64(vsched.Now().Sub(node.LastSeen))
 						pre := spendable(w.pw, C.NodeID)
+						marks := map[string]int{}
+						for _, h := range w.ids[2:] {
+							marks[h.Name] = len(w.pw.Host(h.Name).Calls)
+						}
 						_, err := w.pw.Update(C, hostIDs, 2)
 						_, isLow := vh.AsLowBalance(err)
 						post := spendable(w.pw, C.NodeID)
 						if judge {
+							// every cut-off - the first and every later one - reaches every connected host once
+							for _, h := range w.ids[2:] {
+								n := 0
+								for _, c := range w.pw.Host(h.Name).Calls[marks[h.Name]:] {
+									if c.Method == "vipnode_disconnect" && c.Arg == C.NodeID {
+										n++
+									}
+								}
+								want := 0
+								if isLow && len(peers) > 0 {
+									want = 1
+								}
+								if n != want && (isLow || n > 0) {
+									u.Violate("keepalive/disconnect-fanout", fmt.Sprintf("min=%s history %v: keep-alive cut off=%v, host %s received %d vipnode_disconnect(client), expected %d", min, hist, isLow, h.Name, n, want), vh.BFSReplay(sname, hist))
+									break
+								}
+							}
 							charge := el * int64(len(peers))
 							wantAfter := new(big.Int).Sub(pre, big.NewInt(charge))
 							want := charge > 0 && wantAfter.Cmp(m) < 0
@@ -564,7 +628,7 @@ func c03Walk(driver string, depth int) vh.Unit {
 					C := w.ids[0]
 					n, _ := w.pw.Store.GetNode(store.NodeID(C.NodeID))
 					peers, _ := w.pw.Store.NodePeers(store.NodeID(C.NodeID))
-					return fmt.Sprintf("%d|%d|%s|%d|%s", vsched.Elapsed(), n.LastSeen.Sub(vsched.Base()), spendable(w.pw, C.NodeID), len(peers), vh.StateKey(w.pw.Raw))
+					return fmt.Sprintf("%d|%d|%s|%d|%s|%s", vsched.Elapsed(), n.LastSeen.Sub(vsched.Base()), spendable(w.pw, C.NodeID), len(peers), vh.StateKey(w.pw.Raw), w.pw.RegistryKey())
 				},
 			})
 		}
@@ -585,7 +649,7 @@ func init() {
 		Units: func(tier string) []vh.Unit {
 			var us []vh.Unit
 			for _, d := range vh.Drivers {
-				us = append(us, c03Connect(d), c03ConnectSequences(d), c03Update(d), c03FanoutAfterReconnect(d))
+				us = append(us, c03Connect(d), c03ConnectSequences(d), c03Update(d), c03FanoutAfterReconnect(d), c03LateHost(d))
 				depth := 4
 				if tier == "thorough" {
 					depth = 8
